@@ -36,6 +36,7 @@ SH0 = shard_int("SH0", 0)
 SH1 = shard_int("SH1", -1)  # thorough tier: the second event is fixed per shard as well
 STAGE = shard_int("STAGE", 0)
 NOISE = shard_int("NOISE", 0)
+RAISE = shard_int("RAISE", 0)  # 1: the application's state subscriber raises when a state message arrives
 NADDR = shard_int("NADDR", 1)  # address groups tried one after the other by the TCP connect
 PSK = "QRTIErOb/fcE9Ukd/5qA3RGYMn0Y+p06U58SCtOXvPc="
 
@@ -73,6 +74,9 @@ class _FirstCause:
                 return
             return
         for ev in evs:
+            if ev == E.D_MSG and RAISE:
+                self.note(None)  # a raw exception out of data_received: only "a connection error" is required
+                return
             if ev in FRAME_CAUSE:
                 self.note(FRAME_CAUSE[ev])
                 return
@@ -120,6 +124,7 @@ def _run(events: list) -> bool:
         kw["addresses"] = ["10.0.0.%d" % (i + 1) for i in range(NADDR)]
     s = Scenario(STAGE, world_kw=kw)
     try:
+        s.probe_raise = bool(RAISE)
         fc = _FirstCause(s)
         for a in events:
             ev = ALPHA[concretize(a, NA - 1)]
@@ -169,7 +174,7 @@ def _run(events: list) -> bool:
             # exceptions that escaped into the event loop (callbacks / data_received) other than protocol decode errors
             for ctx in s.w.loop.exc:
                 e = ctx.get("exception")
-                if e is not None and not isinstance(e, (APIConnectionError, OSError)) and "data_received" not in str(ctx.get("message", "")):
+                if e is not None and not isinstance(e, (APIConnectionError, OSError)) and "data_received" not in str(ctx.get("message", "")) and not RAISE:
                     return track.fail(f"exception escaped into the event loop: {type(e).__name__}: {e}; trace={s.trace}")
         return True
     finally:
@@ -230,6 +235,9 @@ def shards(tier: str) -> list:
         for i in _enabled_first(st, nz, na, alpha):
             out.append({"fn": "h09_3", "env": {"STAGE": st, "SH0": i, "NOISE": nz, "NADDR": na, "QA": 1 if quick else 0}, "cond_timeout": 600 if quick else 1500, "path_timeout": 60,
                         "desc": f"stage {E.STAGE_NAMES[st]}{' (noise)' if nz else ''}{' (2 address groups)' if na > 1 else ''}, first event {E.NAMES[alpha[i]]}, then 2 symbolic events ({len(alpha)}-event alphabet); then time runs until every call ended"})
+    for i in _enabled_first(E.ST_CONNECTED, 0, 1, ALPHA_FULL):
+        out.append({"fn": "h09_3", "env": {"STAGE": E.ST_CONNECTED, "SH0": i, "NOISE": 0, "NADDR": 1, "QA": 0, "RAISE": 1}, "cond_timeout": 600 if quick else 1500, "path_timeout": 60,
+                    "desc": f"stage connected, the application's state subscriber raises (raw exception handed to connection_lost), first event {E.NAMES[ALPHA_FULL[i]]}, then 2 symbolic events (27-event alphabet)"})
     if not quick:
         for st, nz, na in [(E.ST_CONNECTING, 0, 1), (E.ST_HELLO_SENT, 0, 1), (E.ST_CONNECTED, 0, 1), (E.ST_HELLO_SENT, 1, 1)]:
             for i, j in E.enabled_pairs(_mk(st, nz, na), ALPHA_Q):
